@@ -14,6 +14,22 @@ Theorem C05_lifecycle_preconditions : forall s c k,
 Proof. exact api_preconditions. Qed.
 Print Assumptions C05_lifecycle_preconditions.
 
+(* DEFECT (recorded in KNOWN_FINDINGS.txt): the code rejects one call that respects the documented
+   preconditions — pika::finalize() while the runtime is suspended ("the runtime is initialized" is
+   all init_runtime.hpp asks for).  Witness replayed by the harness on every run (history hfix0). *)
+Theorem C05_documented_preconditions_refuted :
+  exists s c k, documented_pre s c k = true /\ snd (api_step s c k) = RErr.
+Proof. exact api_documented_pre_refuted. Qed.
+Print Assumptions C05_documented_preconditions_refuted.
+
+(* everywhere else documented and enforced preconditions coincide: a call violating the documented
+   preconditions is rejected, a call respecting them is not (finalize-while-suspended excepted) *)
+Theorem C05_documented_preconditions_partial : forall s c k,
+  (documented_pre s c k = false -> snd (api_step s c k) = RErr) /\
+  (documented_pre s c k = true -> ~ (k = CFinalize /\ ph s = Sleeping) -> snd (api_step s c k) <> RErr).
+Proof. exact api_documented_pre_partial. Qed.
+Print Assumptions C05_documented_preconditions_partial.
+
 (* only stop() returns a value; it does so only from an OS thread, only after finalize(), only with
    nothing outstanding on a sleeping runtime; the value is the entry function's result and the
    state afterwards is the initial state *)
